@@ -16,11 +16,21 @@
        the input's relation (c04_*_same_states_all_n), stated at Q[i] with hypotheses on the INPUT only
        (the factored matrix has a trivial kernel; k_j <> 0; z_j + conj z_j <> 0), the pivot hypothesis
        being discharged by C19's theorem; the abstract-field versions (with pivots_nonzero as a premise)
-       are Conv/ConvNModel.v.  The three *zin functions have no all-n theorem. *)
+       are Conv/ConvNModel.v.
+   (3) ALL n, the three input-impedance functions vnaconv_stozin / ztozin / ytozin (Conv/ConvNZin.v,
+       at Q[i] in Conv/ConvNZinQI.v): for EVERY electrical state of the network (a state satisfying the
+       input matrix's port relation) in which every port other than t is terminated in its reference
+       impedance (v_j = - z_j i_j, i.e. incident wave a_j = 0), v_t = zi_t * i_t with zi the vector
+       the model returns: zi_t is the impedance seen looking into port t.  Hypotheses on the input
+       only: k_j <> 0, the entry the function divides by is non-zero (1 - s_tt, resp. x_tt of the
+       inverse it computes), and for ztozin / ytozin the factored matrix has a trivial kernel
+       (z_j + conj z_j <> 0 for ytozin).  c04_zin_all_n_satisfiable: a concrete 3-port state with
+       port 0 driven (non-zero current) and ports 1, 2 terminated meets every hypothesis of all three,
+       and the three functions return the same impedance for it. *)
 Require Import List.
 Import ListNotations.
 Require Import LV.Base.CField LV.Base.QcI LV.Lin.MatL LV.Lin.LuModel LV.Lin.LuQI LV.Lin.Lu2Cases LV.Conv.ConvN LV.Conv.ConvRel
-               LV.Conv.ConvN2 LV.Conv.ConvExamples LV.Conv.ConvN2Examples LV.Lin.LuGenA LV.Lin.LuNonsing LV.Conv.ConvNModel LV.Conv.ConvNModelQI.
+               LV.Conv.ConvN2 LV.Conv.ConvExamples LV.Conv.ConvN2Examples LV.Lin.LuGenA LV.Lin.LuNonsing LV.Conv.ConvNModel LV.Conv.ConvNModelQI LV.Conv.ConvNZin LV.Conv.ConvNZinQI.
 Require Import LV.Gen.Conv2_s LV.Gen.Conv2_z LV.Gen.Conv2_y LV.Gen.Conv2_zi.
 Local Open Scope cf_scope.
 
@@ -182,3 +192,45 @@ Proof.
           (conj ex3_z_plus_z0_trivial (conj (conj ex3_z_wf ex3_z_trivial) ex3_one_plus_zy_trivial)))))).
 Qed.
 Print Assumptions c04_all_n_hypotheses_satisfiable.
+
+(* ---- group (3): all n, the input-impedance functions ---- *)
+Theorem c04_stozin_phys_all_n n (z0 : list QIF) (s : mat QIF) t (v i : nat -> QIF) :
+  k_ok QIF n z0 -> t < n ->
+  csub (@c1 QIF) (mget QIF s t t) <> @c0 QIF ->
+  relSn QIF n s z0 v i -> terminated_except QIF n z0 t v i ->
+  v t = cmul (nth t (q_stozin n s z0) (@c0 QIF)) (i t).
+Proof. exact (q_stozin_phys n z0 s t v i). Qed.
+Print Assumptions c04_stozin_phys_all_n.
+
+Theorem c04_ztozin_phys_all_n n (z0 : list QIF) (z : mat QIF) t (v i : nat -> QIF) :
+  k_ok QIF n z0 -> t < n ->
+  kernel_trivial QIF (m_z_plus_z0 QIF n z z0) n ->
+  mget QIF (fst (q_minverse (m_z_plus_z0 QIF n z z0) n)) t t <> @c0 QIF ->
+  relZn QIF n z v i -> terminated_except QIF n z0 t v i ->
+  v t = cmul (nth t (q_ztozin n z z0) (@c0 QIF)) (i t).
+Proof. exact (q_ztozin_phys n z0 z t v i). Qed.
+Print Assumptions c04_ztozin_phys_all_n.
+
+Theorem c04_ytozin_phys_all_n n (z0 : list QIF) (y : mat QIF) t (v i : nat -> QIF) :
+  k_ok QIF n z0 -> zsum_ok QIF n z0 -> t < n ->
+  kernel_trivial QIF (m_one_plus_zy QIF n y z0) n ->
+  csub (@c1 QIF) (mget QIF (fst (q_mrdivide (m_one_minus_zcy QIF n y z0) (m_one_plus_zy QIF n y z0) n n)) t t) <> @c0 QIF ->
+  relYn QIF n y v i -> terminated_except QIF n z0 t v i ->
+  v t = cmul (nth t (q_ytozin n y z0) (@c0 QIF)) (i t).
+Proof. exact (q_ytozin_phys n z0 y t v i). Qed.
+Print Assumptions c04_ytozin_phys_all_n.
+
+(* non-vacuity of group (3) *)
+Theorem c04_zin_all_n_satisfiable :
+  terminated_except QIF 3 ex3_z0 0 ex3_v ex3_i /\ ex3_i 0 <> @c0 QIF /\
+  relSn QIF 3 ex3_s ex3_z0 ex3_v ex3_i /\ relZn QIF 3 ex3_z ex3_v ex3_i /\ relYn QIF 3 ex3_y ex3_v ex3_i /\
+  csub (@c1 QIF) (mget QIF ex3_s 0 0) <> @c0 QIF /\
+  mget QIF (fst (q_minverse (m_z_plus_z0 QIF 3 ex3_z ex3_z0) 3)) 0 0 <> @c0 QIF /\
+  csub (@c1 QIF) (mget QIF (fst (q_mrdivide (m_one_minus_zcy QIF 3 ex3_y ex3_z0) (m_one_plus_zy QIF 3 ex3_y ex3_z0) 3 3)) 0 0) <> @c0 QIF /\
+  nth 0 (q_stozin 3 ex3_s ex3_z0) (@c0 QIF) = nth 0 (q_ztozin 3 ex3_z ex3_z0) (@c0 QIF) /\
+  nth 0 (q_ztozin 3 ex3_z ex3_z0) (@c0 QIF) = nth 0 (q_ytozin 3 ex3_y ex3_z0) (@c0 QIF).
+Proof.
+  exact (conj ex3_state_terminated (conj ex3_state_nontrivial (conj ex3_state_relS (conj ex3_state_relZ
+          (conj ex3_state_relY (conj ex3_stozin_div (conj ex3_ztozin_div (conj ex3_ytozin_div ex3_zin_agree)))))))).
+Qed.
+Print Assumptions c04_zin_all_n_satisfiable.
